@@ -132,9 +132,14 @@ def stringSimilarity (a b : Str) (boost : Rat) (prefixSize : Nat) : Rat :=
 
 /-! ## Dates (date_range.go:213, date_node.go:73) -/
 
-/-- `Date.Years()` as an exact rational; a date without a year counts as 0 -/
+/-- `Date.Years()` as an exact rational; a date without a year counts as 0.  Years above 9999
+    (which the parser can produce but `Date.Time()` cannot represent): `year + 0.5` without a
+    month, the `Years()` of the zero time (`1 + 1/366`) with one — as `PDate.yearsFrac`. -/
 def dateYears (d : Date) : Rat :=
-  if d.year = 0 then 0 else (d.year : Rat) + (d.yearsNum : Rat) / (d.yearsDen : Rat)
+  if d.year = 0 then 0
+  else if d.year ≤ 9999 then (d.year : Rat) + (d.yearsNum : Rat) / (d.yearsDen : Rat)
+  else if d.month = 0 then (d.year : Rat) + 1 / 2
+  else 367 / 366
 
 /-- a parsed `DateRange`: its start and end dates -/
 structure DateR where
@@ -255,14 +260,16 @@ def sortDesc : List Cell → List Cell
   | [] => []
   | c :: cs => insertDesc c (sortDesc cs)
 
-/-- the winner loop: stop at the first score below the minimum, skip a pair when either side
-    is already taken (`found` is the Go map keyed by node pointer) -/
-def winners (minimum : Rat) : List Cell → List Nat → List Cell
-  | [], _ => []
-  | c :: cs, found =>
+/-- the winner loop: stop at the first score below the minimum, skip a pair when its left
+    individual is already taken on the left or its right individual on the right (`foundA`,
+    `foundB`: the Go maps keyed by node pointer, one per side since the fix "list similarity
+    tracks matched individuals per side") -/
+def winners (minimum : Rat) : List Cell → List Nat → List Nat → List Cell
+  | [], _, _ => []
+  | c :: cs, fa, fb =>
     if c.sim < minimum then []
-    else if found.contains c.a.id || found.contains c.b.id then winners minimum cs found
-    else c :: winners minimum cs (c.a.id :: c.b.id :: found)
+    else if fa.contains c.a.id || fb.contains c.b.id then winners minimum cs fa fb
+    else c :: winners minimum cs (c.a.id :: fa) (c.b.id :: fb)
 
 def sumSims : List Cell → Rat
   | [] => 0
@@ -272,7 +279,7 @@ def listSimilarity (xs ys : List Indi) (o : SimOpts) : Rat :=
   if xs.length = 0 ∧ ys.length = 0 then 1
   else if xs.length = 0 ∨ ys.length = 0 then 1 / 2
   else
-    let w := winners o.minimumSimilarity (sortDesc (matrix xs ys o)) []
+    let w := winners o.minimumSimilarity (sortDesc (matrix xs ys o)) [] []
     let n := max xs.length ys.length
     (sumSims w + (1 / 2 : Rat) * ((n : Rat) - (w.length : Rat))) / (n : Rat)
 
